@@ -71,7 +71,9 @@ def run_history(c, tmp, idx):
         r = rng.random()
         who = 0 if rng.random() < 0.7 else 1
         before = read_file(path, engine)
-        kind = "sample" if r < 0.55 else ("crop" if r < 0.8 else "new_session")
+        kind = "sample" if r < 0.5 else ("crop" if r < 0.72 else ("new_session" if r < 0.9 else "sample_fail"))
+        if who != 0 and kind == "sample_fail":
+            kind = "sample"
         n = rng.randint(1, 5)
         combos = None
         allowed = dict(CHOICES)
@@ -91,6 +93,47 @@ def run_history(c, tmp, idx):
                 np.random.seed(rng.randint(0, 10 ** 6))
                 opts = {"shuffle": rng.choice([False, True, 3])} if rng.random() < 0.3 else {}
                 last = ss[who].sample_combos(n, combos=combos, verbosity=0, **opts)
+            elif kind == "sample_fail":
+                # a run whose table write fails: before the temporary file exists (save_df raises) or at the
+                # os.replace; the run raises, nothing is appended anywhere
+                np.random.seed(rng.randint(0, 10 ** 6))
+                import xyzpy.gen.farming as F
+                real_save, real_os = F.save_df, F.os
+                at_replace = rng.random() < 0.5
+
+                class OsProxy:
+                    def __getattr__(self, k):
+                        return getattr(real_os, k)
+
+                    @staticmethod
+                    def replace(a, b):
+                        raise OSError(28, "No space left on device (injected)")
+
+                def bad_save(*a, **k):
+                    raise OSError(28, "No space left on device (injected)")
+                if at_replace:
+                    F.os = OsProxy()
+                else:
+                    F.save_df = bad_save
+                failed = None
+                try:
+                    ss[who].sample_combos(n, combos=combos, verbosity=0)
+                except OSError as e:
+                    failed = str(e)
+                finally:
+                    F.save_df, F.os = real_save, real_os
+                after_f = read_file(path, engine)
+                memf = canon_df(ss[who]._full_df)
+                if failed is None:
+                    c.violation("table-write-failure-swallowed", "the table write failed but sample_combos returned", rep)
+                if after_f != before:
+                    c.violation("failed-write-changed-table", "a run whose write failed changed the table on disk", rep)
+                if memf != (before if before is not None else memf) and before is not None:
+                    c.violation("memory-differs-from-disk", f"after a failed write full_df has {len(memf or [])} rows, "
+                                f"the file {len(before)}", rep)
+                model_ops.append("SAddFail []")
+                obs.append([memf, after_f])
+                continue
             elif kind == "crop":
                 np.random.seed(rng.randint(0, 10 ** 6))
                 crop = ss[who].Crop(name=f"c{step}", parent_dir=d, batchsize=rng.randint(1, 3))
